@@ -110,7 +110,16 @@ def flag_set(facts, ft, term, enum_param, adt_path=ORIENT):
     out = set()
     key = strip_site(("discr", ("param", enum_param)))
     for d, name in vs:
-        r = resolve_under(ft, term, {key: d}) if term[0] == "phi" else term
+        r = term
+        if term[0] == "phi":
+            r = resolve_under(ft, term, {key: d})
+        elif not is_const(term):
+            # the flag may be a component of a joined tuple / struct (flags computed together by one match)
+            from ..query import deep_resolve
+            try:
+                r = deep_resolve(ft, term, {key: d})
+            except Exception:
+                r = None
         if r is None or not is_const(r) or const_int(r) not in (0, 1):
             return None
         if const_int(r) == 1:
@@ -147,7 +156,7 @@ def orientation_flags(facts, outer, internal):
         if t["k"] != "switch":
             continue
         d = ft.switch_term(b)
-        if d[0] == "phi" and strip_site(d) not in seen:
+        if d[0] in ("phi", "field") and strip_site(d) not in seen:
             fs = flag_set(facts, ft, d, op)
             if fs is not None:
                 seen.add(strip_site(d))
